@@ -145,6 +145,9 @@ class Recorder:
                     "fkey": fkey,
                     "msg": short(msg, 2000),
                     "case": case if case is not None else self._case,
+                    # the case handed to check() when `case` is a narrower description of the
+                    # failing input: --replay falls back to it when `case` is not itself a case
+                    "outer_case": self._case if (case is not None and case != self._case) else None,
                     "observed": short(observed, 4000) if observed is not None else None,
                     "expected": short(expected, 4000) if expected is not None else None,
                 }
@@ -440,10 +443,21 @@ def replay_file(path, units):
     rec = unjson(json.load(open(path)))
     unit = {u.name: u for u in units}[rec["unit"]]
     _UNITS[unit.name] = unit
-    obs = []
-    for i in range(2):
-        r = unit.replay(rec["case"])
-        obs.append([(v["fkey"], v["msg"]) for v in r.violations])
+    def run(case):
+        out = []
+        for i in range(2):
+            r = unit.replay(case)
+            out.append([(v["fkey"], v["msg"]) for v in r.violations])
+        return out
+
+    obs = run(rec["case"])
+    outer = rec.get("outer_case")
+    if outer is not None and (not obs[0] or any(f.startswith("exception:") and f.endswith("@?") for f, _m in obs[0])):
+        # `case` names the failing input but is not a case of the unit: replay the enclosing case
+        obs = run(outer)
+        want = rec.get("fkey")
+        if any(f == want for f, _m in obs[0]):
+            obs = [[(f, m) for f, m in o if f == want] for o in obs]
     if obs[0] != obs[1]:
         print("REPLAY-NONDETERMINISTIC: two runs of the same case observed different things")
         print(obs)
